@@ -171,7 +171,7 @@ impl std::fmt::Display for Relation {
             write!(f, " <")?;
             for (i, profile) in profile.iter().enumerate() {
                 if i > 0 {
-                    write!(f, ", ")?;
+                    write!(f, " ")?;
                 }
                 write!(f, "{}", profile)?;
             }
